@@ -123,7 +123,13 @@ Example c02_repaired_rollback_after_exchange :
     st n' = Stable /\ pendL n' = None /\ pendR n' = None /\
     curL n' = Some (ds Offer 16) /\ curR n' = Some (ds Answer 32).
 Proof.
-  cbn zeta. eexists. split; [cbn; repeat split; discriminate|]. repeat split; reflexivity.
+  cbn zeta.
+  exists (fst (step_r repaired
+            (run_from_r repaired
+               (run_r repaired [OCreateOffer 16; OSetLocal (ds Offer 16); OSetRemote (ds Answer 32)])
+               [OSetRemote (ds Offer 48); OCreateAnswer 64 true; OSetLocal (ds Pranswer 64)])
+            (OSetLocal {| d_ty := Rollback; d_txt := empty_txt |}))).
+  vm_compute. repeat split; discriminate.
 Qed.
 
 Example c02_as_is_witness :
